@@ -98,29 +98,37 @@ def _views(ctx, res, prob, inds, n, o, maxtag, lastpop):
     pops = prob.populations()
     ctx.check('populations-partition', sorted(x.id for lst in pops.values() for x in lst) != list(range(n)) or
               any(x.population_id != k for k, lst in pops.items() for x in lst))
-    # expected listing order of table()/parameters(): generations in order of first appearance,
-    # recording order inside a generation
-    order = []
-    for t in dict.fromkeys(x.population_id for x in inds):
-        order.extend(x for x in inds if x.population_id == t)
+    import itertools
     rows = res.table(transpose=False)
     ctx.check('table-row-count', len(rows) != n)
+
+    def perm_match(got, exp_of):
+        """got is a permutation BY VALUE of [exp_of(x) for x in inds] (order is not promised)."""
+        if len(got) != n:
+            return False
+        return Or(*[And(*[Not(_neq(g, exp_of(inds[j]))) for g, j in zip(got, perm)]) for perm in itertools.permutations(range(n))])
     if len(rows) == n:
-        ctx.check('table-row-pairs-own-vector-and-costs', Or(*[_neq(r, x.vector + x.costs) for r, x in zip(rows, order)]))
+        ctx.check('table-row-pairs-own-vector-and-costs', Not(perm_match(rows, lambda x: x.vector + x.costs)))
     cols = res.table()
     ok_shape = len(cols) == 2 + o and all(len(c) == n for c in cols) and len(rows) == n
     ctx.check('table-transposed-shape', not ok_shape)
     if ok_shape:
-        ctx.check('table-transposed', Or(*[cols[j][i] != rows[i][j] for i in range(n) for j in range(2 + o)]))
+        ctx.check('table-transposed', Not(perm_match([[cols[j][i] for j in range(2 + o)] for i in range(n)], lambda x: x.vector + x.costs)))
     ps = res.parameters()
-    ctx.check('parameters-listing', True if len(ps) != n else Or(*[_neq(p, x.vector) for p, x in zip(ps, order)]))
+    ctx.check('parameters-listing', True if len(ps) != n else Not(perm_match(ps, lambda x: x.vector)))
     cs = res.costs()
-    ctx.check('costs-listing', True if len(cs) != o else Or(*[_neq(cs[k], [x.costs[k] for x in inds]) for k in range(o)]))
+    ctx.check('costs-listing', True if (len(cs) != o or any(len(c) != n for c in cs))
+              else Not(perm_match([[cs[k][i] for k in range(o)] for i in range(n)], lambda x: x.costs)))
     pi = res.pareto_individuals()
     want = [x for x in lastpop if _front1(x)]
     ctx.check('pareto-individuals', [x.id for x in pi] != [x.id for x in want])
     pf = res.pareto_front()
-    ctx.check('pareto-front-costs', True if len(pf) != o else Or(*[_neq(pf[k], [x.costs[k] for x in want]) for k in range(o)]))
+    if len(pf) != o or any(len(c) != len(want) for c in pf):
+        ctx.check('pareto-front-costs', True)
+    else:
+        got = [[pf[k][i] for k in range(o)] for i in range(len(want))]
+        ctx.check('pareto-front-costs', Not(Or(*[And(*[Not(_neq(g, want[j].costs)) for g, j in zip(got, perm)])
+                                                 for perm in itertools.permutations(range(len(want)))])) if want else False)
 
 
 def _b(ctx, v):
